@@ -1311,7 +1311,17 @@ def _probe(E, st, seg):
             else:
                 return None
     else:
-        return None
+        # neither a slice nor a loop: a lookup that answered "absent" at once because the container is empty
+        # (`if self.is_empty() { return false }` in front of the scan) -- a decided comparison of a length with 0
+        # in this segment, and exactly one caller-owned container that is empty on this path
+        lens0 = [e for e in seg if e[0] == 'cond']
+        empties = [m for m, ms in st.maps.items() if not ms.dead and not ms.phantom and ms.len0 is not None
+                   and E.miss_complete(st, m) == ('<empty>',)]
+        if lens0 and len(empties) == 1:
+            X = empties[0]
+            hits = []
+        else:
+            return None
     if hits:
         return X, 'hit', hits[-1][2], hits[-1][3]
     m = E.miss_complete(st, X)
@@ -1394,6 +1404,10 @@ def h_quantifier(mode, outer_is):
                 ok = outer[1] == A
             if ok and outer_is == 'other':
                 ok = outer[1] == B
+            if not ok and not slices:
+                # no scan at all: "every element of the operand" is vacuous exactly when that operand is empty
+                empt = {'self': [ma], 'other': [mb], 'either': [ma, mb]}[outer_is]
+                ok = any(z.entails_eq(m.len0, 0) for m in empt)
             ctx.req('POL', ok, nm + ':true',
                     'true may be returned only after every element of %s was examined'
                     % {'self': 'the left operand', 'other': 'the right operand', 'either': 'one operand'}[outer_is], p)
@@ -1658,6 +1672,7 @@ def h_filter_hint(pol):
         if pol == 'diff':
             # at least max(0, remaining - |other|) items will come (keys of the other set are unique)
             ok_lo = lower == ('int', 0) or (lower[0] == 'satsub' and same(lower[1], diff_expr)) \
+                or (same(lower, diff_expr) and z.entails_le(olen, b0) and z.entails_eq(f0, 0)) \
                 or (same(lower, diff_expr) and z.entails_lt(olen, b0))
             ctx.req('HINT', ok_lo, nm + ':lower',
                     'the lower bound may not exceed max(0, remaining - other.len())', p)
